@@ -148,7 +148,7 @@ func TestProp(t *testing.T) {
 	var variants []variant
 	nk := 1
 	if vh.Thorough() {
-		nk = 3
+		nk = 12
 	}
 	for _, st := range sigTypes {
 		ets := []int32{kcrypto.EtypeOfCksum[st]}
